@@ -60,7 +60,7 @@ PROPS = {
         'not_decided': ['pickle path beyond the v1-expressible subset'],
     },
     'C13': {
-        'families': ['contracts.hints', 'contracts.native'],
+        'families': ['contracts.hints', 'contracts.sigsim', 'contracts.native'],
         'level': 'other',
         'technique': 'bounded native run of the faithfulness contract (stand-in; totality contracts on serialize_to_python in progress)',
         'text': 'exec() of the rendered hint text defines mutations with the same signature effect and the same generated SQL as the '
@@ -95,7 +95,7 @@ PROPS = {
         'not_decided': ['whole-history clauses (interleaved management commands)', 'EvolveAppTask.prepare branch selection (in progress)'],
     },
     'C15': {
-        'families': ['contracts.deletion', 'contracts.native'],
+        'families': ['contracts.deletion', 'contracts.sigsim', 'contracts.native'],
         'level': 'proof',
         'technique': 'contract-based deductive verification: whole-view frame postconditions, VCs from the real AST, z3/cvc5',
         'text': 'DeleteModel.simulate removes exactly the named model of the simulated app and leaves every other app entry and the '
@@ -181,7 +181,7 @@ PROPS = {
         'not_decided': ['file contents of the second database', 'DeleteApplication per-model filter (covered under C15)'],
     },
     'C18': {
-        'families': ['contracts.table_ops'],
+        'families': ['contracts.table_ops', 'contracts.native'],
         'level': 'proof',
         'technique': 'contract-based deductive verification: VCs generated from the real AST, discharged by z3/cvc5',
         'text': 'Contracts on _are_ops_mergeable (mergeable set taken from the property text), generate_table_op_sql '
@@ -201,7 +201,6 @@ PROPS = {
 }
 
 NOT_APPLICABLE = {
-    'C03x': '',
     'C04': 'whole-history convergence over Evolver + management commands + a real database; conclusion is equality of two '
            'database states, which no contract on /repo functions expresses (DESIGN.md section 8). Contract-shaped pieces '
            'are discharged under C05 (diff(self)=empty), C06 (store/reload), C08 (record once).',
